@@ -1163,6 +1163,14 @@ func (db *DB) Repair(of Object) (err error) {
 		return
 	}
 
+	// an index which is internally inconsistent cannot be repaired entry
+	// by entry, we re-index all the objects (object ids are not reused)
+	if s.ObjectIndex.control() != nil {
+		next := s.ObjectIndex.i
+		s.ObjectIndex = newIndex(s.Fields)
+		s.ObjectIndex.i = next
+	}
+
 	// we re-index missing objects in index
 	if uuids, err = uuidsFromDir(dir); err != nil {
 		return
